@@ -157,6 +157,30 @@ CLAIMED = {
         note=BASE_NOTE + "bufio is abstracted to an arbitrary flush schedule.",
         technique="Coq theorems on the buffered-writer and trim/undo models + print/parse/print fix-point check under all styles",
         design="6 C18"),
+    "C02": dict(
+        text=("Token level. The grammar of parser.go.y is written as a derivation relation over token lists (Parse/GrammarSpec.v); the model of the "
+              "generated parser with its rule actions is a fuelled predictive parser that builds the position-free skeleton of the AST. Proved, for all "
+              "token lists: every derivable program is accepted with all tokens consumed and exactly the derivation's skeleton (completeness; the only "
+              "alternative answer is an exhausted recursion budget, which the check reports if it ever occurs); conversely every accepted input has a "
+              "derivation with that skeleton (soundness); the skeleton is unique; the budget never changes an answer. Tie to the code on every run: the "
+              "tokens the real parser received (hook VerifTokenHook) are fed to the extracted model and its verdict/skeleton/error token are compared "
+              "with ParseCommands' error, AST skeleton and error position, on generated programs, token mutants (incl. glued composite words), short "
+              "strings and words in NAME/IO-number/assignment positions. Lexing half (source text -> tokens, reserved-word recognition) is NOT proved: "
+              "it is decided by a derivation generator that renders token lists with random layout and compares delivered tokens and skeleton."),
+        note=BASE_NOTE + "Modelled, not verified: goyacc's LALR tables and driver (the model is an LL-style parser for the same productions), the lexer.",
+        technique="Coq soundness+completeness proof of the grammar model against a derivation relation + token-tap correspondence + derivation generator",
+        design="6 C02"),
+    "C03": dict(
+        text=("Token level (same model as C02). Proved for all token lists: whatever is accepted is a sentence with every token accounted for in the tree "
+              "(none dropped or re-associated), and a reported syntax error implies that no derivation exists. On every run: (a) the model judges the "
+              "token stream delivered to the real parser: ParseCommands must fail whenever the model rejects, at the token the model stops at when the "
+              "message is a parser-side 'unexpected ...'; (b) implementation side: every reported syntactic failure is a parser.Error with the caller's "
+              "name and a line:column inside the consumed text at the start of a token, for all single-token mutations (deletion, insertion, duplication, "
+              "swap, glued expansions) of generated programs, truncations, and all strings <=3 symbols over 22 characters + 13 reserved words. Not "
+              "proved: lexer-side errors (unterminated quotes, expansions, here-documents) are only observed."),
+        note=BASE_NOTE + "Modelled, not verified: goyacc tables and error recovery, the lexer. bash/dash were reference recognisers while building only.",
+        technique="Coq proof (accepted <=> derivable, rejected => not derivable) on the grammar model + token-tap correspondence + located-error check",
+        design="6 C03"),
     "C19": dict(
         text=("Proved: Option.String is total on every bit combination (loop bound translated from the source on every run). NOT proved: totality of "
               "printer / Pos / End / Expand on parser-produced ASTs and of Eval / Match / Glob on arbitrary strings; decided on every run in isolated "
@@ -169,14 +193,6 @@ CLAIMED = {
 }
 
 EXPLORATION = {
-    "C03": dict(
-        text=("No theorem yet (the grammar model is under construction). Decided on every run, implementation side only: for all single-token mutations "
-              "of generated programs, truncations, and all strings <=3 symbols over 22 characters + 13 reserved words: a reported syntactic failure is a "
-              "parser.Error with the caller's name and a line:column inside the consumed text designating the start of a token. The acceptance side "
-              "(no ill-formed program accepted) is not decided by this check."),
-        note="Implementation-side test; no model. bash/dash were used as reference recognisers while building, not in the check.",
-        technique="exploration: located-error check on token-level mutants (no proof yet)",
-        design="6 C03"),
     "C05": dict(
         text=("No theorem yet (the printer model is under construction). Decided on every run, implementation side: generated programs (every compound "
               "construct, here-documents inside them, comments, reserved words after closing tokens) x 16 pairwise-covering Configs (every 16th: all 256): "
@@ -193,6 +209,13 @@ EXPLORATION = {
         design="6 C09"),
 }
 
+def hook_commits():
+    import subprocess
+    out = subprocess.run(["git", "-C", "/repo", "log", "--format=%h %s"], stdout=subprocess.PIPE, text=True).stdout
+    return [l.split()[0] for l in out.splitlines() if l.split(" ", 1)[1].startswith(("verif hook", "verif:"))]
+
+
+HOOK_COMMITS = hook_commits()
 PENDING_REASON = "not claimed yet: needs the grammar/lexer model as an independent oracle for the expected AST (under construction); no technique switch intended"
 
 
@@ -223,7 +246,7 @@ def main():
             "guard": "verif",
             "enable": "go build -tags verif (the harness module replaces github.com/hattya/go.sh by /repo)",
             "baseline_off_cmd": "cd /repo && GOFLAGS=-mod=mod GOPROXY=off GOSUMDB=off GOTOOLCHAIN=local go test -vet=off -count=1 ./...",
-            "source_commits": [],
+            "source_commits": HOOK_COMMITS,
             "add_only": True,
         },
         "engines": [{
